@@ -39,6 +39,7 @@ import (
 	"github.com/evanw/esbuild/internal/resolver"
 	"github.com/evanw/esbuild/internal/runtime"
 	"github.com/evanw/esbuild/internal/sourcemap"
+	"github.com/evanw/esbuild/internal/verif"
 	"github.com/evanw/esbuild/internal/xxhash"
 )
 
@@ -651,6 +652,7 @@ func (c *linkerContext) generateChunksInParallel(additionalFiles []graph.OutputF
 	// Generate the final output files by joining file pieces together and
 	// substituting the temporary paths for the final paths. This substitution
 	// can be done in parallel for each chunk.
+	verif.Event("hash.done", "cwd", c.fs.Cwd(), "prefix", c.uniqueKeyPrefix, "chunks", len(c.chunks))
 	c.timer.Begin("Generate final output files")
 	var resultsWaitGroup sync.WaitGroup
 	results := make([][]graph.OutputFile, len(c.chunks))
